@@ -110,11 +110,15 @@ impl Pattern {
     fn has_greedy_all(hir: &Hir) -> bool {
         match hir.kind() {
             HirKind::Repetition(repetition) => {
-                let is_dot = DOT_HIRS.contains(&repetition.sub);
+                let mut sub = &*repetition.sub;
+                while let HirKind::Capture(capture) = sub.kind() {
+                    sub = &capture.sub;
+                }
+                let is_dot = DOT_HIRS.contains(sub);
                 let is_unbounded = repetition.max.is_none();
                 let is_greedy = repetition.greedy;
 
-                is_dot && is_unbounded && is_greedy
+                (is_dot && is_unbounded && is_greedy) || Self::has_greedy_all(&repetition.sub)
             }
             HirKind::Empty => false,
             HirKind::Literal(_literal) => false,
